@@ -2,7 +2,7 @@
 // view: cap() = capacity of the underlying byte buffer, init() = the bytes
 // initialized so far (a prefix of the buffer).  The contracts below are the
 // shared texts of units/contracts.toml; they are proved on the real code in
-// unit `bufref` (write/extend: bounded Kani stand-in, see C19).
+// unit `bufref` (the text of `write` is the shared contract bufref::write of units/contracts.toml).
 #[verifier::external_body]
 pub struct BufferRef<'d, 's> {
     _p: core::marker::PhantomData<(&'d mut [u8], &'s mut usize)>,
@@ -16,14 +16,7 @@ impl<'d, 's> BufferRef<'d, 's> {
 
     #[verifier::external_body]
     pub fn write(&mut self, bytes: &[u8]) -> (r: Result<(), CapacityError>)
-        requires (*old(self)).wf(),
-        ensures
-            (*final(self)).wf(),
-            (*final(self)).cap() == (*old(self)).cap(),
-            r.is_ok() <==> bytes@.len() <= (*old(self)).cap() - (*old(self)).init().len(),
-            r.is_ok() ==> (*final(self)).init() == (*old(self)).init() + bytes@,
-            r.is_err() ==> (*final(self)).init().len() <= (*final(self)).cap()
-                && (*old(self)).init() == (*final(self)).init().subrange(0, (*old(self)).init().len() as int),
+        //@contract bufref::write
     { unimplemented!() }
 
     #[verifier::external_body]
